@@ -13,6 +13,7 @@ def run(ctx):
     n = 160 if ctx.quick else 1000
     scens = [gl.history(rnd, "q%d" % i, steps=rnd.randint(3, 8), with_construct=True, with_transform=True, with_coef=True) for i in range(n)]
     scens.append(KNOWN_INPUT)
+    scens += [gl.local3d_history(rnd, "v%d" % i) for i in range(n // 6)]
     gl.run_grid(ctx, [("routes", scens), ("mixed", gl.mixed_family(rnd, max(40, n // 5)))], gl.OBS_NODAL | gl.OBS_ROUTES, "C04")
     ctx.assume("identities are judged by observer bits at 1e-9..1e-10 relative tolerance on 33 probe points per state (nodes, interior)")
 
